@@ -1,4 +1,4 @@
-import Abverif.Proofs.Lemmas.SchemaOpts
+import Abverif.Proofs.Lemmas.SchemaRoles
 /-
 Lookups in the options dictionary written by `Schema.marshalDict`.
 -/
